@@ -24,6 +24,12 @@ def getters(w):
 def open_writer(top, cfg):
     import digital_rf
 
+    if getattr(cfg, "tz", None):
+        import time
+
+        os.environ["TZ"] = cfg.tz
+        time.tzset()
+
     dt, is_cplx = cfg.writer_dtype()
     return digital_rf.DigitalRFWriter(
         os.path.join(top, cfg.channel), dt, cfg.subdir_s, cfg.file_ms, cfg.start, cfg.n, cfg.d,
